@@ -96,6 +96,7 @@ func plan(tier string, seed int64) []sup.Batch {
 	for _, v := range variants {
 		add(sup.Chunk("rand-"+v, "rand-"+v, nRand, (nRand+randBatches-1)/randBatches, 1, map[string]any{"variant": v}))
 		add(sup.Chunk("adapt-"+v, "adapt-"+v, nAdapt, (nAdapt+3)/4, 1, map[string]any{"variant": v}))
+		add(sup.Chunk("special-"+v, "special-"+v, nRand/4, (nRand/4+1)/2, 1, map[string]any{"variant": v}))
 	}
 	nn := nameTotal(nameLen)
 	const nameBlk = 4000
@@ -130,7 +131,7 @@ func newEnvs(m map[string]string, useSetAll bool) (commservices.Environments, er
 	return e, nil
 }
 
-const sshEntrypoint = "cat /proc/self/environ > ../env"
+var sshEntrypoint = catPath + " /proc/self/environ > ../env" // absolute: a configured PATH is the user's business
 
 // buildScript returns the start-up script of the variant for e.
 func buildScript(variant string, e commservices.Environments) ([]byte, error) {
@@ -162,7 +163,7 @@ func tail(variant string, names []string) []byte {
 		sb.WriteString("printf '%s' \"$" + k + "\" > ../out/" + k + "\n")
 	}
 	if variant == vContainer {
-		sb.WriteString("cat /proc/self/environ > ../env\n")
+		sb.WriteString(catPath + " /proc/self/environ > ../env\n")
 	}
 	sb.WriteString(": > ../done\n")
 	return []byte(sb.String())
@@ -656,6 +657,7 @@ func main() {
 		Level: "exploration",
 		Rule: "exh: every value of length ≤ L (4 quick / 5 thorough) over {$ ` \" ' \\ newline space ( ) a E}, 200 variables per /bin/sh run, for the container script (dcmd.InitSequence) and the SSH script (sshsb initSequence via the verif export); " +
 			"rand: random maps of 1…40 variables with hostile values (command substitutions creating canary files, $OTHER references, EOF-like lines, assignments, trailing newlines, control and non-ASCII bytes, values above one pipe buffer), each run twice with one variable changed; " +
+			"special: maps that configure PATH (every other case: a directory list without the standard utilities, empty, relative …), IFS, HOME, ENV, CDPATH, LANG … next to 1…5 ordinary variables – every variable must still arrive, whatever the order of assignment; " +
 			"adapt: values that contain the here-document terminators observed in earlier scripts of the same process; " +
 			"names: every name of length ≤ N (3 quick / 4 thorough) over a 24-symbol alphabet plus random longer ones through Set and SetAll; " +
 			"distinct = distinct (variant, map) / blocks, non-trivial = some value holds a shell-significant character",
@@ -663,7 +665,8 @@ func main() {
 			"/bin/sh is dash; the verdict is for this shell",
 			"dash 0.5.12 drops a byte ≥ 0x80 that follows a non-empty prefix of the here-document delimiter at the start of a line (its own parser defect, confirmed per child by a hand-written here-document); such values are compared with that predicted result, see dash.go",
 			"NUL bytes are excluded from values (not representable in a shell variable)",
-			"names used for value checks contain a lower-case letter so that they cannot collide with variables the shell itself interprets (PATH, IFS, ENV, …)",
+			"names of the exh/rand/adapt batches contain a lower-case letter; variables the shell itself interprets (PATH, IFS, HOME, ENV, CDPATH, LANG, …; names with digits such as PS1 are rejected by the library) are configured in the special batches, next to ordinary ones; variables the shell maintains by itself (PWD, OLDPWD, LINENO, OPTIND, PPID) are not configured",
+			"the harness' own lines (dumping the variables, recording the child environment) use builtins and an absolute path, so that they keep working under any configured PATH",
 			"the SSH key material written by the container script (SSHCert) is not an environment variable and is not checked",
 			"a random here-document terminator cannot be guessed by a value; the adaptive batch only replays terminators seen in earlier scripts",
 		},
@@ -676,6 +679,8 @@ func main() {
 				runRand(c, b)
 			case strings.HasPrefix(b.Kind, "adapt-"):
 				runAdapt(c, b)
+			case strings.HasPrefix(b.Kind, "special-"):
+				runSpecial(c, b)
 			case b.Kind == "names-exh":
 				runNamesExh(c, b)
 			case b.Kind == "names-rand":
@@ -687,7 +692,7 @@ func main() {
 		Finish: func(t *sup.Totals) string {
 			var missing []string
 			for _, k := range []string{"shell_runs", "vars_checked_container", "vars_checked_ssh", "exh_values_container", "exh_values_ssh",
-				"child_environments_read", "values_with_canary_command", "independence_pairs", "adapt_runs", "names_checked", "nonidentifier_names_rejected", "plain_names_accepted"} {
+				"child_environments_read", "values_with_canary_command", "independence_pairs", "adapt_runs", "maps_that_configure_PATH", "maps_with_a_variable_the_shell_interprets_container", "maps_with_a_variable_the_shell_interprets_ssh", "names_checked", "nonidentifier_names_rejected", "plain_names_accepted"} {
 				if t.Obs[k] == 0 {
 					missing = append(missing, k)
 				}
